@@ -41,11 +41,67 @@ class Rewrite(Edit):
     kind = "rewrite"
 
 
+def apply_unified_diff(files, difftext):
+    """apply a `git diff` text to an in-memory file map; None if a hunk does not match exactly"""
+    import re
+    files = dict(files)
+    cur = None
+    hunks = {}
+    for line in difftext.splitlines():
+        if line.startswith("+++ "):
+            path = line[4:].strip()
+            cur = path[2:] if path.startswith("b/") else path
+            hunks[cur] = []
+        elif line.startswith("--- ") or line.startswith("diff --git") or line.startswith("index "):
+            continue
+        elif line.startswith("@@") and cur is not None:
+            m = re.match(r"@@ -(\d+)(?:,(\d+))? \+(\d+)(?:,(\d+))? @@", line)
+            if not m:
+                return None
+            hunks[cur].append([int(m.group(1)), []])
+        elif cur is not None and hunks[cur] and line[:1] in (" ", "+", "-", ""):
+            hunks[cur][-1][1].append(line if line else " ")
+        elif line.startswith("\\"):
+            continue
+    for path, hs in hunks.items():
+        if path.startswith("src/wormhole/test/"):
+            continue
+        if path not in files:
+            return None
+        src = files[path].split("\n")
+        out = []
+        pos = 0
+        for start, lines in hs:
+            old = [l[1:] for l in lines if l[:1] in (" ", "-")]
+            new = [l[1:] for l in lines if l[:1] in (" ", "+")]
+            idx = start - 1
+            if src[idx:idx + len(old)] != old:
+                # tolerate moved context: unique match elsewhere after the previous hunk
+                cands = [i for i in range(pos, len(src) - len(old) + 1) if src[i:i + len(old)] == old]
+                if len(cands) != 1:
+                    return None
+                idx = cands[0]
+            if idx < pos:
+                return None
+            out.extend(src[pos:idx])
+            out.extend(new)
+            pos = idx + len(old)
+        out.extend(src[pos:])
+        files[path] = "\n".join(out)
+    return files
+
+
 def _eval(args):
-    pid, files, root, tier, base, expect = args
+    pid, files, root, tier, base, expect = args[:6]
     from .driver import evaluate
     sys.setrecursionlimit(20000)
     try:
+        if len(args) > 6 and args[6]:
+            # corpus refactoring: the table / flow / dataflow rules only (the typestate product is exercised by the
+            # module's own REWRITES and by tools/rfcheck.py --a3)
+            tree = SourceTree(files, root)
+            rep, _ = evaluate(pid, tier, tree, skip_a3=True)
+            return ("ok", [(v["key"], v["rule"]) for v in rep.violations])
         if expect is not None:
             # first pass without the (expensive) typestate exploration; enough if the cheap rules already fire
             tree = SourceTree(files, root)
@@ -80,6 +136,22 @@ def run_for(pid, tree, base_rep=None, jobs=None, only=None):
             stale.append(e.id)
             continue
         tasks.append((e, (pid, files, tree.root, "quick", base, e.expect if e.kind == "mutant" else None)))
+    # the corpus of behaviour-preserving refactorings (seeded/refactors/*.diff, written by maintainers-for-a-day who saw only
+    # the property text): none of them may raise an alarm.  A diff that no longer applies to the tree under analysis is stale.
+    n_corpus = 0
+    if not only and not os.environ.get("VERIF_NO_CORPUS"):
+        import glob
+        from .core import VERIF
+        for dp in sorted(glob.glob(os.path.join(VERIF, "seeded", "refactors", "*.diff"))):
+            with open(dp, encoding="utf-8") as fh:
+                files = apply_unified_diff(tree.files, fh.read())
+            name = "corpus:" + os.path.basename(dp)[:-5]
+            if files is None:
+                stale.append(name)
+                continue
+            n_corpus += 1
+            tasks.append((Rewrite(name, "", "", "", desc="behaviour-preserving refactoring from the corpus"),
+                          (pid, files, tree.root, "quick", base, None, True)))
     jobs = jobs or int(os.environ.get("VERIF_JOBS", "16"))
     t0 = time.time()
     results = []
@@ -122,7 +194,7 @@ def run_for(pid, tree, base_rep=None, jobs=None, only=None):
                 lines.append("SELFTEST-FAIL %s rewrite %s (%s) raised a false alarm: %s" % (pid, e.id, e.desc, new[:4]))
             else:
                 lines.append("selftest %s rewrite %-27s silent" % (pid, e.id))
-    summary = {"mutants": n_m, "rewrites": n_r, "stale_skipped": stale, "failed": failed,
+    summary = {"mutants": n_m, "rewrites": n_r, "corpus_refactorings": n_corpus, "stale_skipped": stale, "failed": failed,
                "wall_s": round(time.time() - t0, 1)}
     return {"lines": lines, "failed": failed, "summary": summary}
 
